@@ -46,7 +46,9 @@ for l in eps:
     cls=[v for v in vars(m).values() if isinstance(v,type) and issubclass(v,AbstractCountry) and v is not AbstractCountry][0]
     c=cls()
     crow.append((script,c.country_iso_code,c.get_long_term_capital_gain_period(),c.get_default_accounting_method(),sorted(c.get_accounting_methods()),sorted(c.get_report_generators()),c.get_default_generation_language()))
-body='namespace Rp2.Gen\n/-- (script, iso, long-term period, default method, methods, generators, default language); generic probed with LONG_TERM_CAPITAL_GAINS=123 -/\ndef countries : List (String × String × Nat × String × List String × List String × String) :=\n  '+llist([f'({lstr(s)}, {lstr(i)}, {p}, {lstr(dm)}, {llist(map(lstr,ms))}, {llist(map(lstr,gs))}, {lstr(lg)})' for s,i,p,dm,ms,gs,lg in crow])+'\nend Rp2.Gen\n'
+allgens=sorted({g for r in crow for g in r[5]})
+gb='/-- generator plugin name ↦ its last component (file / template base name); string processing is done here so that `decide` can evaluate the tables -/\ndef generatorBases : List (String × String) := '+llist([f'({lstr(g)}, {lstr(g.split(".")[-1])})' for g in allgens])+'\n'
+body='namespace Rp2.Gen\n'+gb+'/-- (script, iso, long-term period, default method, methods, generators, default language); generic probed with LONG_TERM_CAPITAL_GAINS=123 -/\ndef countries : List (String × String × Nat × String × List String × List String × String) :=\n  '+llist([f'({lstr(s)}, {lstr(i)}, {p}, {lstr(dm)}, {llist(map(lstr,ms))}, {llist(map(lstr,gs))}, {lstr(lg)})' for s,i,p,dm,ms,gs,lg in crow])+'\nend Rp2.Gen\n'
 write('Countries.lean',body)
 # ---- Methods (AST)
 def term(n):
@@ -80,7 +82,9 @@ for f in sorted(glob.glob(data+'/*/template_*')):
     ok=True
     if ext=='txt': ok=os.path.exists(os.path.join(data,open(f).read().strip()))
     trow.append((country,core,ext,ok))
-body='namespace Rp2.Gen\n/-- (country dir, "<generator>_<language>", extension, link target exists) -/\ndef templates : List (String × String × String × Bool) :=\n  '+llist([f'({lstr(c)}, {lstr(k)}, {lstr(e)}, {b(o)})' for c,k,e,o in trow])+'\nend Rp2.Gen\n'
+import re as _re
+tl=sorted({(c,_re.sub(r'^rp2_full_report_','',k)) for c,k,e,o in trow if k.startswith('rp2_full_report_')})
+body='namespace Rp2.Gen\n/-- (country dir, language) for every shipped full-report template -/\ndef templateLangs : List (String × String) := '+llist([f'({lstr(c)}, {lstr(l)})' for c,l in tl])+'\n/-- (country dir, "<generator>_<language>", extension, link target exists) -/\ndef templates : List (String × String × String × Bool) :=\n  '+llist([f'({lstr(c)}, {lstr(k)}, {lstr(e)}, {b(o)})' for c,k,e,o in trow])+'\nend Rp2.Gen\n'
 write('Templates.lean',body)
 # ---- Consts
 from decimal import getcontext, FloatOperation
@@ -102,17 +106,27 @@ end Rp2.Gen
 '''
 write('Consts.lean',body)
 # ---- Imports
-mods=[]; calls=[]
+mods=[]; calls=[]; dyn=[]; opens=[]
 for f in sorted(glob.glob(os.path.join(repo,'src/rp2/**/*.py'),recursive=True)):
     t=ast.parse(open(f).read()); imps=set(); rel=os.path.relpath(f,os.path.join(repo,'src'))
     for n in ast.walk(t):
         if isinstance(n,ast.Import):
             for a in n.names: imps.add(a.name.split('.')[0])
-        elif isinstance(n,ast.ImportFrom): imps.add((n.module or '').split('.')[0])
+        elif isinstance(n,ast.ImportFrom):
+            if n.level==0: imps.add((n.module or '').split('.')[0])
+            else: imps.add('rp2')
         elif isinstance(n,ast.Call):
-            s=ast.unparse(n.func)
-            if s in ('os.system','os.popen','os.fork','eval','exec','__import__') or s.startswith(('os.exec','os.spawn','os.posix_spawn')): calls.append((rel,s))
+            s_=ast.unparse(n.func)
+            if s_ in ('os.system','os.popen','os.fork','os.forkpty','eval','exec','__import__','compile') or s_.startswith(('os.exec','os.spawn','os.posix_spawn','subprocess.','socket.','platform.','uuid.')): calls.append((rel,s_))
+            if s_ in ('import_module','importlib.import_module') and n.args:
+                dyn.append((rel, ast.unparse(n.args[0])))
+            if s_=='open' and rel!='rp2/rp2_configuration_translator.py':
+                mode='r'
+                if len(n.args)>1: mode=ast.unparse(n.args[1]).strip('\'"')
+                for kw in n.keywords:
+                    if kw.arg=='mode': mode=ast.unparse(kw.value).strip('\'"')
+                opens.append((rel,mode))
     mods.append((rel,sorted(imps)))
-body='namespace Rp2.Gen\n/-- (module file, root names of everything it imports) -/\ndef imports : List (String × List String) :=\n  '+llist([f'({lstr(m)}, {llist(map(lstr,i))})' for m,i in mods])+'\n/-- call sites of process-spawning / dynamic-code facilities -/\ndef dangerousCalls : List (String × String) := '+llist([f'({lstr(m)}, {lstr(c)})' for m,c in calls])+'\nend Rp2.Gen\n'
+body='namespace Rp2.Gen\n/-- (module file, root names of everything it imports) -/\ndef imports : List (String × List String) :=\n  '+llist([f'({lstr(m)}, {llist(map(lstr,i))})' for m,i in mods])+'\n/-- call sites of process-spawning / dynamic-code / networking facilities -/\ndef dangerousCalls : List (String × String) := '+llist([f'({lstr(m)}, {lstr(c)})' for m,c in calls])+'\n/-- import_module call sites: (module, first argument as written) -/\ndef dynamicImports : List (String × String) := '+llist([f'({lstr(m)}, {lstr(c)})' for m,c in dyn])+'\n/-- builtin open() call sites outside the configuration translator: (module, mode) -/\ndef opens : List (String × String) := '+llist([f'({lstr(m)}, {lstr(c)})' for m,c in opens])+'\nend Rp2.Gen\n'
 write('Imports.lean',body)
 print('generated', sorted(os.listdir(outdir)))
